@@ -382,7 +382,7 @@ pub fn op_strategy(p: &Profile) -> BoxedStrategy<OpSpec> {
     add(p.w_truncate, any::<u16>().prop_map(|pos| OpSpec::Truncate { pos }).boxed());
     add(
         p.w_purge,
-        (any::<u16>(), prop_oneof![5 => Just(0u8), 1 => 1u8..=3], proptest::bool::weighted(0.08)).prop_map(|(pos, beyond, noop)| OpSpec::Purge { pos, beyond, noop }).boxed(),
+        (any::<u16>(), prop_oneof![5 => Just(0u8), 1 => 1u8..=4], proptest::bool::weighted(0.08)).prop_map(|(pos, beyond, noop)| OpSpec::Purge { pos, beyond, noop }).boxed(),
     );
     add(p.w_commit, (any::<u16>(), proptest::bool::weighted(0.15)).prop_map(|(pos, beyond)| OpSpec::Commit { pos, beyond }).boxed());
     add(p.w_flush, proptest::bool::weighted(0.5).prop_map(|wait| OpSpec::Flush { wait }).boxed());
@@ -406,11 +406,12 @@ pub fn fault_strategy(g: FaultGen) -> BoxedStrategy<Vec<FaultRule>> {
             let eintr_rule = (0u32..12, 1u32..3).prop_map(|(nth, count)| FaultRule { target: FaultTarget::WorkerWrite, nth, count, kind: FaultKind::Eintr });
             let write_rule = (0u32..12, prop_oneof![3 => Just(1u32), 1 => Just(u32::MAX / 2)], prop_oneof![Just(FaultKind::Eio), Just(FaultKind::Enospc)])
                 .prop_map(|(nth, count, kind)| FaultRule { target: FaultTarget::WorkerWrite, nth, count, kind });
+            let torn_rule = (0u32..12, any::<u8>()).prop_map(|(nth, k)| FaultRule { target: FaultTarget::WorkerWrite, nth, count: 1, kind: FaultKind::ShortThenFail(k) });
             let unlink_rule = (0u32..4, prop_oneof![3 => Just(1u32), 1 => Just(u32::MAX / 2)]).prop_map(|(nth, count)| FaultRule { target: FaultTarget::WorkerUnlink, nth, count, kind: FaultKind::Eio });
             let one: BoxedStrategy<FaultRule> = if g == FaultGen::SyncAndUnlink {
                 prop_oneof![5 => sync_rule, 2 => short_rule, 1 => eintr_rule, 3 => unlink_rule].boxed()
             } else if g == FaultGen::Io {
-                prop_oneof![5 => sync_rule, 2 => short_rule, 1 => eintr_rule, 2 => write_rule].boxed()
+                prop_oneof![5 => sync_rule, 2 => short_rule, 1 => eintr_rule, 2 => write_rule, 2 => torn_rule].boxed()
             } else {
                 prop_oneof![6 => sync_rule, 2 => short_rule, 1 => eintr_rule].boxed()
             };
